@@ -66,10 +66,54 @@ def native_oracle(witness, work, search_seed=None):
                 elif f2[off:off + w] != f3[off:off + w] and not all(a != a and b != b for a, b in zip(f2[off:off + w], f3[off:off + w])):
                     return dict(status='violated', request=r, detail='2D block %s differs from 3D block %s for entry %s at x=%r depth=%r' % (f2[off:off + w], f3[off:off + w], p, x, d))
                 off += w
-        return dict(status='holds', detail='30 random 2D/3D query pairs agree; world without cross section refuses 2D queries')
+        res = spherical_check(work, rnd)
+        if res is not None:
+            return res
+        return dict(status='holds', detail='30 random Cartesian and 30 spherical 2D/3D query pairs agree; world without cross section refuses 2D queries')
     finally:
         q.close()
         q3.close()
+
+
+SPH = '''{"version":"1.1", "cross section":[[20,10],[50,40]], "coordinate system":{"model":"spherical", "depth method":"starting point"},
+  "features":[{"model":"continental plate", "name":"A", "max depth":300e3, "coordinates":[[0,0],[60,0],[60,25],[0,25]],
+     "temperature models":[{"model":"linear", "max depth":300e3, "top temperature":300, "bottom temperature":1500}],
+     "composition models":[{"model":"uniform", "compositions":[0]}]},
+   {"model":"oceanic plate", "name":"B", "max depth":200e3, "coordinates":[[0,25],[60,25],[60,60],[0,60]],
+     "temperature models":[{"model":"uniform", "temperature":777}], "composition models":[{"model":"uniform", "compositions":[1]}]}]}'''
+
+
+def spherical_check(work, rnd):
+    """spherical worlds: 2D query (x,z) == 3D query at radius sqrt(x^2+z^2), (lon,lat) = first section point + atan2(z,x) * unit direction"""
+    import oracle
+    q = oracle.Q(SPH, work, name='sph')
+    try:
+        if q.construct_error:
+            return dict(status='error', detail=q.construct_error)
+        R = 6371000.0
+        o = (math.radians(20), math.radians(10))
+        dvec = (math.radians(50) - o[0], math.radians(40) - o[1])
+        nrm = math.hypot(*dvec)
+        u = (dvec[0] / nrm, dvec[1] / nrm)
+        for i in range(30):
+            ang = rnd.uniform(0.0, 0.6)
+            d = rnd.choice([0.0, 50e3, 150e3, 250e3])
+            r = R - d
+            x, z = r * math.cos(ang), r * math.sin(ang)
+            lon, lat = o[0] + ang * u[0], o[1] + ang * u[1]
+            c = (r * math.cos(lat) * math.cos(lon), r * math.cos(lat) * math.sin(lon), r * math.sin(lat))
+            s2, a2 = q.ask('p2 %r %r %r 1,0,0 2,0,0 2,1,0 4,0,0' % (x, z, d))
+            s3, a3 = q.ask('p3 %r %r %r %r 1,0,0 2,0,0 2,1,0 4,0,0' % (c[0], c[1], c[2], d))
+            if s2 != 'OK' or s3 != 'OK':
+                continue
+            f2 = [float.fromhex(t) for t in a2]
+            f3 = [float.fromhex(t) for t in a3]
+            if any(abs(a - b) > 1e-6 * max(1.0, abs(b)) for a, b in zip(f2, f3)):
+                return dict(status='violated', detail='spherical world, cross section [[20,10],[50,40]] deg: the 2D query at angle %.4f rad, depth %r returns %s, the 3D query at (lon,lat)=(%.4f,%.4f) deg returns %s'
+                                                      % (ang, d, f2, math.degrees(lon), math.degrees(lat), f3))
+        return None
+    finally:
+        q.close()
 
 
 def witness_from_trace(unit, failure, seed):
